@@ -576,6 +576,21 @@ func genHostile(t *rapid.T) hostileCase {
 		}
 		c.Mutations = append(c.Mutations, "escaped-quotes-unescaped")
 	}
+	if pbt.Known(kGenOpenQuote) {
+		for k, txt := range c.Files {
+			if generateInOpenQuote(txt) {
+				pbt.Excluded(kGenOpenQuote)
+				if txt += "\"\n"; generateInOpenQuote(txt) {
+					txt += " \"\n"
+				}
+				if generateInOpenQuote(txt) {
+					txt = strings.ReplaceAll(txt, "\"", "x")
+				}
+				c.Files[k] = txt
+				c.Mutations = append(c.Mutations, "open-quote-closed in "+k)
+			}
+		}
+	}
 	if pbt.Known(kGenEOF) && endsInBareGenerate(c.Files) {
 		pbt.Excluded(kGenEOF)
 		for k, txt := range c.Files {
